@@ -329,8 +329,13 @@ func (sr *sessRun) step(st *Step) {
 				if o.single != single || o.preserve != preserve || o.fib != fib {
 					differDefinite = true
 				}
+			} else if !o.gotMsg && !o.ambiguous {
+				// A live session that has sent nothing holds the protocol's default parameters
+				// (ALL_PRIMARY, DELETE, RIB_ACK), which no supported request equals: "identical to
+				// those of every other live session" fails.
+				differDefinite = true
 			} else {
-				differIdle = true // an un-negotiated session: the specification is silent
+				differIdle = true // a session whose standing the model cannot tell
 			}
 		}
 		if differDefinite {
